@@ -762,3 +762,103 @@ func ruleScan4(c *Ctx) []*Ob {
 	}
 	return o.list
 }
+
+func init() {
+	register(&Rule{
+		ID: "OPEN-2",
+		Doc: "The adopted file is not cleaned up: the list that openStore hands to removeFiles is every name except the one at the index of the file it just adopted - recognised as " +
+			"append(names[:i], names[i+1:]...) with i the probing loop's index. (After a fallback to an older file - a half-written compaction file " +
+			"is the newest - a list such as names[:len-1] unlinks the file that was just opened and keeps the junk: the next open finds no readable store.) Other forms are reported as undecided.",
+		Props: []string{"C05"},
+		Floor: 1,
+		Run:   ruleOpen2,
+	})
+}
+
+func ruleOpen2(c *Ctx) []*Ob {
+	o := newObs(c, "OPEN-2")
+	f := c.Fn("openStore")
+	fn := c.fname(f)
+	rm := c.Fn("removeFiles")
+	// the probing index: index of the IndexAddr feeding the OpenFile call (see OPEN-1)
+	var probeIdx []ssa.Value
+	eachInstr(f, func(i ssa.Instruction) {
+		call, ok := i.(*ssa.Call)
+		if !ok || !isFieldFuncCall(call, "StoreOptions", "OpenFile") || len(call.Call.Args) == 0 {
+			return
+		}
+		var scan func(v ssa.Value, d int)
+		scan = func(v ssa.Value, d int) {
+			backSlice(v, func(w ssa.Value) bool {
+				ia, isIA := w.(*ssa.IndexAddr)
+				if ld, isLd := w.(*ssa.UnOp); isLd && ld.Op == token.MUL {
+					ia, isIA = ld.X.(*ssa.IndexAddr)
+				}
+				if isIA {
+					probeIdx = append(probeIdx, ia.Index)
+				}
+				if jc, isC := w.(*ssa.Call); isC && d < 3 && (isStaticCall(jc, "path", "Join") || isStaticCall(jc, "path/filepath", "Join")) {
+					for _, a := range jc.Call.Args {
+						scan(a, d+1)
+					}
+				}
+				return false
+			})
+		}
+		scan(call.Call.Args[0], 0)
+	})
+	isProbe := func(v ssa.Value) bool {
+		for _, p := range probeIdx {
+			if sameValue(v, p) {
+				return true
+			}
+		}
+		return false
+	}
+	n := 0
+	for _, k := range callsToFn(f, rm) {
+		n++
+		arg := k.Call.Args[len(k.Call.Args)-1]
+		verdict, why := false, "undecided: the list handed to removeFiles is not built in the recognised way (append(names[:i], names[i+1:]...) with i the probing index)"
+		for _, og := range origins(arg) {
+			call, isC := og.(*ssa.Call)
+			if !isC {
+				continue
+			}
+			b, isB := call.Call.Value.(*ssa.Builtin)
+			if !isB || b.Name() != "append" || len(call.Call.Args) != 2 {
+				continue
+			}
+			lo, okLo := call.Call.Args[0].(*ssa.Slice)
+			hi, okHi := call.Call.Args[1].(*ssa.Slice)
+			if !okLo || !okHi {
+				continue
+			}
+			loOK := (lo.Low == nil || isZeroConst(lo.Low)) && lo.High != nil && isProbe(lo.High)
+			hiOK := false
+			if hb, isHB := hi.Low.(*ssa.BinOp); isHB && hb.Op == token.ADD && isConstInt(hb.Y, 1) && isProbe(hb.X) && hi.High == nil {
+				hiOK = true
+			}
+			sameList := len(origins(lo.X)) > 0 && sameValue(lo.X, hi.X)
+			switch {
+			case loOK && hiOK && sameList:
+				verdict, why = true, "every name except the adopted one (names[:i] + names[i+1:])"
+			default:
+				verdict, why = false, "the list handed to removeFiles is cut from the file names at bounds that do not leave out exactly the adopted file's index ("+accessPath(call.Call.Args[0])+", "+accessPath(call.Call.Args[1])+
+					"): after a fallback to an older file the file just opened is unlinked (and junk is kept); the directory no longer holds a readable store"
+			}
+		}
+		// a plain re-slice of the name list (names[:len-1]) is a definite violation
+		for _, og := range origins(arg) {
+			if sl, isSl := og.(*ssa.Slice); isSl {
+				verdict, why = false, "the list handed to removeFiles is a re-slice of the file names ("+accessPath(sl)+") chosen by position, not by which file was adopted: "+
+					"after a fallback to an older file the file just opened is unlinked and the unreadable newer one is kept"
+			}
+		}
+		o.add(fn, "removeFiles list excludes the adopted file", c.instrPos(k), verdict, why)
+	}
+	if n == 0 {
+		o.trivial(fn, "no clean-up of other files", c.pos(f.Pos()), "nothing to decide")
+	}
+	return o.list
+}
